@@ -65,8 +65,14 @@ Definition join_s2c (bc : bcfg) (sc : scfg) : list frame :=
    ++ map (reg_frame (eff_thr thr)) (regs_of sc))
   ++ [fr (eff_thr thr) cbConfigFinish []].
 (* the bot knows every registry the server sends and can read its content *)
+(* what the bot's registry of that id holds after reading the content *)
+Definition decoded (bc : bcfg) (r : list N * list N) : list (list N * list N) :=
+  match bc_registry bc (fst r) (snd r) with Some (Some es) => es | _ => [] end.
 Definition regs_readable (bc : bcfg) (rs : list (list N * list N)) : Prop :=
-  Forall (fun r => bc_registry bc (fst r) (snd r) = Some true) rs.
+  Forall (fun r => exists es, bc_registry bc (fst r) (snd r) = Some (Some es)) rs.
+(* the bot's registries after the join: one entry list per registry packet, in the order sent *)
+Definition bot_regs_after (bc : bcfg) (sc : scfg) : list (list N * list (list N * list N)) :=
+  map (fun r => (fst r, decoded bc r)) (regs_of sc).
 
 (* both ends agree: joined, same name, the offline UUID, the protocol number the bot sent, the same
    threshold; nothing is left in flight; the two transcripts are exactly the protocol's *)
@@ -78,7 +84,8 @@ Definition joined_state (bc : bcfg) (sc : scfg) (x : gsysT) : Prop :=
   b_thr (x_b x) = eff_thr (sc_threshold sc) /\ s_thr (x_s x) = eff_thr (sc_threshold sc) /\
   x_c2s x = [] /\ x_s2c x = [] /\
   x_c2s_hist x = join_c2s bc (eff_thr (sc_threshold sc)) /\
-  x_s2c_hist x = join_s2c bc sc.
+  x_s2c_hist x = join_s2c bc sc /\
+  b_regs (x_b x) = bot_regs_after bc sc.
 
 Definition B := true.
 Definition S := false.
@@ -102,7 +109,7 @@ Lemma join_reference bc sc :
             joined_state bc sc f /\ quiet bc sc f /\ clean f.
 Proof.
   destruct sc as [thr chk cfg blob status]. destruct bc as [name claim host port plugin cookie known time].
-  unfold accepts, joined_state, quiet, clean, eff_thr, join_c2s, join_s2c, regs_of, profile_frame, eff_thr.
+  unfold accepts, joined_state, quiet, clean, eff_thr, join_c2s, join_s2c, bot_regs_after, regs_of, profile_frame, eff_thr.
   cbn [sc_cfg sc_checker sc_threshold bc_name bc_claim].
   intros -> Hacc.
   destruct (compress_on thr) eqn:Ethr; destruct chk as [c|].
@@ -175,22 +182,23 @@ Ltac gstep0 :=
 
 (* the registry packets: the server writes one, the bot reads it, and so on *)
 Definition regs_sched (rs : list (list N * list N)) : list bool := flat_map (fun _ => [S; B]) rs.
-Lemma regs_run bc sc t bn bu p sn su k : forall rs hc hs bs ss,
+Lemma regs_run bc sc t bn bu p sn su k : forall rs br hc hs bs ss,
   regs_readable bc rs ->
   gstrict bc sc (regs_sched rs)
-    {| x_b := {| b_ph := BConfig; b_thr := t; b_name := bn; b_uuid := bu |};
+    {| x_b := {| b_ph := BConfig; b_thr := t; b_name := bn; b_uuid := bu; b_regs := br |};
        x_s := {| s_ph := reg_chain rs k; s_thr := t; s_proto := p; s_name := sn; s_uuid := su |};
        x_c2s := []; x_s2c := []; x_c2s_hist := hc; x_s2c_hist := hs; x_bseen := bs; x_sseen := ss |}
   = Some
-    {| x_b := {| b_ph := BConfig; b_thr := t; b_name := bn; b_uuid := bu |};
+    {| x_b := {| b_ph := BConfig; b_thr := t; b_name := bn; b_uuid := bu;
+                 b_regs := br ++ map (fun r => (fst r, decoded bc r)) rs |};
        x_s := {| s_ph := k; s_thr := t; s_proto := p; s_name := sn; s_uuid := su |};
        x_c2s := []; x_s2c := []; x_c2s_hist := hc; x_s2c_hist := hs ++ map (reg_frame t) rs;
        x_bseen := bs ++ map (fun _ => (cbConfigRegistryData, t, t)) rs; x_sseen := ss |}.
 Proof.
   destruct bc as [name claim host port plugin cookie reg time].
-  induction rs as [|[rid content] rs IH]; intros hc hs bs ss Hr.
+  induction rs as [|[rid content] rs IH]; intros br hc hs bs ss Hr.
   - cbn [regs_sched flat_map map reg_chain]. rewrite !app_nil_r. reflexivity.
-  - inversion Hr as [|? ? H1 H2]; subst. cbn [fst snd bc_registry] in H1.
+  - inversion Hr as [|? ? H1 H2]; subst. cbn [fst snd bc_registry] in H1. destruct H1 as [es H1].
     cbn [regs_sched flat_map app map reg_chain]. fold (regs_sched rs).
     replace (hs ++ reg_frame t (rid, content) :: map (reg_frame t) rs)
       with ((hs ++ [reg_frame t (rid, content)]) ++ map (reg_frame t) rs)
@@ -198,6 +206,11 @@ Proof.
     replace (bs ++ (cbConfigRegistryData, t, t) :: map (fun _ => (cbConfigRegistryData, t, t)) rs)
       with ((bs ++ [(cbConfigRegistryData, t, t)]) ++ map (fun _ : list N * list N => (cbConfigRegistryData, t, t)) rs)
       by (rewrite <- app_assoc; reflexivity).
+    set (dd := decoded {| bc_name := name; bc_claim := claim; bc_host := host; bc_port := port; bc_plugin := plugin;
+                          bc_cookie := cookie; bc_registry := reg; bc_time := time |}) in *.
+    replace (br ++ (fst (rid, content), dd (rid, content)) :: map (fun r => (fst r, dd r)) rs)
+      with ((br ++ [(rid, es)]) ++ map (fun r => (fst r, dd r)) rs)
+      by (rewrite <- app_assoc; cbn [fst app]; unfold dd, decoded; cbn [fst snd bc_registry]; rewrite H1; reflexivity).
     eapply strict_cons;
       [ cbv -[thr_eq compress_on long_eq bot_ProtocolVersion reg_chain]; reflexivity | ].
     eapply strict_cons;
@@ -207,13 +220,13 @@ Proof.
 Qed.
 
 (* then: finish, the bot's acknowledgement, and the server's wait loop sees it *)
-Lemma finish_run bc sc t bn bu p sn su hc hs bs ss :
+Lemma finish_run bc sc t bn bu br p sn su hc hs bs ss :
   gstrict bc sc [S; B; B; S]
-    {| x_b := {| b_ph := BConfig; b_thr := t; b_name := bn; b_uuid := bu |};
+    {| x_b := {| b_ph := BConfig; b_thr := t; b_name := bn; b_uuid := bu; b_regs := br |};
        x_s := {| s_ph := SSend cbConfigFinish [] SConfWait; s_thr := t; s_proto := p; s_name := sn; s_uuid := su |};
        x_c2s := []; x_s2c := []; x_c2s_hist := hc; x_s2c_hist := hs; x_bseen := bs; x_sseen := ss |}
   = Some
-    {| x_b := {| b_ph := BJoined; b_thr := t; b_name := bn; b_uuid := bu |};
+    {| x_b := {| b_ph := BJoined; b_thr := t; b_name := bn; b_uuid := bu; b_regs := br |};
        x_s := {| s_ph := SJoined; s_thr := t; s_proto := p; s_name := sn; s_uuid := su |};
        x_c2s := []; x_s2c := []; x_c2s_hist := hc ++ [fr t sbConfigFinish []];
        x_s2c_hist := hs ++ [fr t cbConfigFinish []];
@@ -248,7 +261,7 @@ Lemma stock_reference bc sc :
             joined_state bc sc f /\ quiet bc sc f /\ clean f.
 Proof.
   destruct sc as [thr chk cfg regs status].
-  unfold accepts, joined_state, quiet, clean, eff_thr, join_c2s, join_s2c, regs_of, profile_frame, eff_thr, stock_sched.
+  unfold accepts, joined_state, quiet, clean, eff_thr, join_c2s, join_s2c, bot_regs_after, regs_of, profile_frame, eff_thr, stock_sched.
   cbn [sc_cfg sc_checker sc_threshold sc_registries].
   intros -> Hacc Hr.
   destruct bc as [name claim host port plugin cookie reg time]. cbn [bc_name bc_claim] in *.
